@@ -244,7 +244,7 @@ class C12(vlib.Driver):
             return {"str": st, "members": ms}
 
         # seeded runs (half of them over generated observation spaces: rank 0-3 members, 5 dtypes)
-        for _ in range(120 if quick else 1500):
+        for _ in range(100 if quick else 1500):
             N = rng.randint(1, 4)
             nag = rng.randint(1, 3)
             envs = []
@@ -284,7 +284,7 @@ class C12(vlib.Driver):
             cases.append({"kind": "wrap", "obs": obs, "akind": "discrete", "nag": nag, "seed": rng.choice([None, 2]),
                           "env": {"lens": [2, 1, 3], "mode": mode, "leave": leaves[lv]},
                           "actions": [[rng.randrange(5) for _ in range(nag)] for _ in range(8)]})
-        for _ in range(40 if quick else 400):
+        for _ in range(30 if quick else 400):
             nag = rng.randint(1, 3)
             leave = {}
             if rng.random() < 0.4:
@@ -413,7 +413,7 @@ class C12(vlib.Driver):
 
     def oracle_vec(self, case, obs):
         N, nag, kind, akind = len(case["envs"]), case["nag"], case["obs"], case["akind"]
-        site = kind_name(kind)
+        site = kind if isinstance(kind, str) else "generated-" + describe(kind)["str"]
         if obs["error"] is not None:
             e = obs["error"]
             return [Violation("no-exception", f"vec:exception:{e['type']}",
